@@ -42,6 +42,7 @@ Definition val_ok (f : tfield) (v : tval) : Prop :=
   | FSigTime, VInt z => 0 <= z <= 4294967295
   | FEui n, VBytes b => all_bytes b = true /\ length b = n /\ (0 < n)%nat
   | FFmtHex, VBytes t => fmthex_ok t = true
+  | FOct16, VInt z => 0 <= z <= 65535
   | _, _ => False
   end.
 
@@ -180,7 +181,7 @@ Lemma field_ok sty c f v ftext v' R q bl :
         (is_rest f = true -> exists te, ungot st_end = Some te /\ is_eol_or_eof te = true).
 Proof.
   intros (Hhs & Hbs & HO) Hv Hp He Hbl HR1 HR2.
-  destruct f as [maxv| |tokmax ctormax ne| | |sc| |v6| | | | | |k| |maxc| |en|]; destruct v as [z|b|n|l|ws]; cbn [val_ok] in Hv; try contradiction;
+  destruct f as [maxv| |tokmax ctormax ne| | |sc| |v6| | | | | |k| |maxc| |en| |]; destruct v as [z|b|n|l|ws]; cbn [val_ok] in Hv; try contradiction;
     cbn [print_field] in Hp; cbn [expect] in He; cbn [is_rest] in HR1, HR2.
   - (* FDec *)
     inversion Hp; subst ftext. inversion He; subst v'. specialize (HR1 eq_refl).
@@ -499,6 +500,16 @@ Proof.
       rewrite has_bs_safe by exact Hs. cbn [negb bind fst snd]. unfold as_identifier, is_identifier. cbn [ttype tvalue].
       change (tIDENT =? tIDENT) with true. reflexivity.
     + cbn [ctor_field]. rewrite Hv. reflexivity.
+  - (* FOct16 *)
+    inversion Hp; subst ftext. inversion He; subst v'. specialize (HR1 eq_refl).
+    destruct (octal_facts z Hv) as (Hne & Hs & Ert).
+    exists (mkTok tIDENT (print_base 8 z) (has_bs (print_base 8 z)) None), (stq false R).
+    split; [apply get0_word_q; auto using units_safe|]. split; [reflexivity|]. split.
+    { unfold tok_plain, is_identifier. cbn [ttype tvalue]. rewrite safe_word_not_hash by exact Hs. repeat split; reflexivity. }
+    split; [apply stq_len_word|].
+    intros stX HX _. exists (VInt z), (stq false R). split; [|split; [reflexivity|split; [intros _; exists false; reflexivity|discriminate]]].
+    cbn [parse_field]. unfold get_uint, get_unescaped. rewrite HX. cbn [bind fst snd]. unfold unescape. cbn [tesc].
+    rewrite has_bs_safe by exact Hs. cbn [negb bind fst snd]. rewrite Ert. reflexivity.
 Qed.
 
 (* ---------- the whole field list ---------- *)
